@@ -297,9 +297,12 @@ def to_trace(events, did):
         if k in ("Line", "Apply"):
             continue
         rec = {"event": k, "o": e["o"], "digest": 0, "ncomments": 0, "glexer_mine": True, "gparse_mine": True,
-               "rdigest": 0, "exc": "no"}
+               "rdigest": 0, "exc": "no", "c_comments": False, "c_block": False, "c_stmt": False}
         if k == "StartRun":
             rec["ncomments"] = e["n_comments"]
+            rec["c_comments"] = e["n_comments"] > 0
+            rec["c_block"] = e["n_block"] > 0
+            rec["c_stmt"] = e["pending"] is not None
         elif k == "ParseStmt":
             rec["digest"] = did(e["result"])
             rec["glexer_mine"] = bool(e["glexer_is_mine"])
